@@ -484,6 +484,66 @@ fn gen_idle_case(seed: u64) -> E2eCase {
     case
 }
 
+/// The same engine with a workload for C19: every request goes through the client's timeout
+/// layer; handler delays and one-hop redirects are placed around the deadline.
+pub struct E2eTimeoutSim;
+
+fn gen_timeout_case(seed: u64) -> E2eCase {
+    let mut r = Rng::keyed(seed, "e2e/timeout");
+    let mut case = gen_case(seed);
+    let t = *r.pick(&[20u64, 50, 200]);
+    case.client.timeout_ms = Some(t);
+    // two thirds of the clients follow redirects
+    case.client.order = (case.client.order & 7) | ((r.below(3) as u8) << 3);
+    case.net = NetPlan::plain();
+    for p in case.requests.iter_mut() {
+        p.cancel_at_ms = None;
+        p.read = ReadMode::Full;
+        p.body_delay_ms = 0;
+        p.handler.resp_delay_ms = 0;
+        p.handler.delay_ms = *r.pick(&[0, 1, t / 2 + 2, t - 2, t + 5]);
+        if p.redirect.is_none() && !p.upgrade && p.path_form == 0 && r.chance(1, 2) {
+            // to the same origin (always speaks the request's version), in a form that is followed
+            p.redirect = Some(RedirectPlan { status: *r.pick(&[303u16, 307, 308]), to_origin: p.origin });
+            p.body_len = 0;
+        }
+    }
+    case
+}
+
+impl Scenario for E2eTimeoutSim {
+    type Case = E2eCase;
+
+    fn engine(&self) -> &'static str {
+        "e2etimeout"
+    }
+
+    fn info(&self) -> ScenarioInfo {
+        ScenarioInfo {
+            rule: "the e2esim world with a client timeout T in {20, 50, 200} ms of virtual time, handler delays in {0, 1, T/2+2, T-2, T+5} (applied to every hop), half of the requests redirected once (to the same origin), clients built with and without the redirect layer in every order of the builder calls, fault-free network. Oracle: every request resolves - response head, error or RequestTimeout - no later than T after it was issued, and a RequestTimeout never comes early. distinct = the e2esim measure.".into(),
+            real: E2eSim.info().real,
+            stub: E2eSim.info().stub,
+            assumptions: vec!["complements timersim (the layer alone) and poolsim (every pool stage): this part sees the position of the timeout layer in the client's stack".into()],
+        }
+    }
+
+    fn num_cases(&self, tier: Tier) -> (u64, u64) {
+        (0, if tier == Tier::Quick { 1500 } else { 100_000 })
+    }
+
+    fn case(&self, _index: u64, seed: u64, _tier: Tier) -> E2eCase {
+        gen_timeout_case(seed)
+    }
+
+    fn execute(&self, case: &E2eCase) -> Outcome {
+        E2eSim.execute(case)
+    }
+
+    fn shrink(&self, case: &E2eCase) -> Vec<E2eCase> {
+        shrink_e2e(case).into_iter().filter(|c| c.client.timeout_ms.is_some()).collect()
+    }
+}
+
 impl Scenario for E2eIdleSim {
     type Case = E2eCase;
 
@@ -1047,6 +1107,37 @@ impl Scenario for E2eSim {
             let hops = case.requests.iter().find(|p| p.id == *id).map(|p| if p.redirect.as_ref().and_then(|r| redirect_outcome(case.client.follows_redirects(), r.status, &p.method, p.body_len)).is_some() { 2 } else { 1 }).unwrap_or(1);
             if *n > hops {
                 viol("handled_twice", json!({"kind": "duplicate"}), format!("request {} reached the handler {} times", id, n));
+            }
+        }
+
+        // ---- C19 end to end: with a client timeout T every request resolves - response head, error
+        // or the timeout error - no later than T after it was issued (whatever happens below the
+        // timeout layer: pool stages, redirects, slow handlers)
+        if let Some(t) = case.client.timeout_ms {
+            let pumped = crate::net::pumped_ms();
+            for p in &case.requests {
+                let Some(rec) = res.recs.get(&p.id) else { continue };
+                let resolved = match &rec.outcome {
+                    ROutcome::Err(_, at) => Some(*at),
+                    ROutcome::Ok | ROutcome::Wrong(_) => rec.head_ms,
+                    _ => None,
+                };
+                if let Some(at) = resolved {
+                    if at > rec.start_ms + t + pumped {
+                        out.violations.push(Violation::new(
+                            "C19",
+                            "resolved_after_deadline",
+                            json!({"redirected": p.redirect.is_some()}),
+                            format!("request {} was issued at {} ms with a {} ms timeout but only resolved at {} ms ({:?})", p.id, rec.start_ms, t, at, rec.outcome),
+                        ));
+                    }
+                    if matches!(&rec.outcome, ROutcome::Err(k, _) if k == "timeout") {
+                        out.count("probe.request_timed_out");
+                        if at < rec.start_ms + t {
+                            out.violations.push(Violation::new("C19", "timeout_too_early", json!({"kind": "e2e"}), format!("request {} timed out at {} ms, issued at {} ms with a {} ms timeout", p.id, at, rec.start_ms, t)));
+                        }
+                    }
+                }
             }
         }
 
